@@ -163,6 +163,10 @@ CHECKS = {
         "legs": [
             model("Wiring_MC.cfg", spec="Wiring.tla", min_states=1000),
             model("Wiring_DevPos.cfg", spec="Wiring.tla", expect_violation="C05_OneToOne"),
+            # port requests through three forwarding endpoints; the deviation (id taken from the received port number, seeded change
+            # C05_m1) is invisible with one forwarder and found with two
+            model("WiringFwd_MC3.cfg", spec="WiringFwd.tla", min_states=100),
+            model("WiringFwd_Dev2.cfg", spec="WiringFwd.tla", expect_violation="C05_ConnectedUnlessRejected"),
             dict(WT, kind="trace", name="wiring", workload="wiring", n=(300, 5000), opts={}, require={r'"ev":"h_use"': 600, r'"kind":"(bin|io|lr)_': 150, r'"hops":3': 50, r'"kind":"nest_tx"': 40, r'"kind":"binnest_tx"': 15},
                  nontrivial=[r'"ev":"w_recv","id":\d+\}|"cids":\[\d+,\d+', r'"ev":"h_use"']),
             dict(WT, kind="trace", name="wiring_hops3", workload="wiring", n=(150, 2000), opts={"hops": 3}, require={r'"ev":"h_use"': 300}, nontrivial=[r'"ev":"h_use"']),
